@@ -258,7 +258,7 @@ theorem BndP.place {st : St} {ids : List Nat} (h : BndP st ids) (node : Node) (h
         · exact Or.inr ⟨f, by simp only [St.frames, e6, e7, List.mem_cons]; exact Or.inr hf, hd⟩
 
 theorem Bnd.doOp (total : Bool) (st : St) (t : String) (a : List Arg) (o : Outs) (nn : Option String)
-    (g : List Nat) (h : Bnd st) : Bnd (doOp total st t a o nn g) := by
+    (g : List Nat) (as : List (String × AVal)) (h : Bnd st) : Bnd (doOp total st t a o nn g as) := by
   unfold OV.C18.doOp
   obtain ⟨a1, a2, a3, a4, a5, a6⟩ := resolveArgs_spec a st h
   split
@@ -302,7 +302,7 @@ theorem Bnd.fail (st : St) (e : String) (h : Bnd st) : Bnd (fail st e) := by
   · exact h.same rfl rfl rfl rfl (fun f hf => ⟨f, hf, rfl, rfl⟩) (fun f hf => ⟨f, hf, rfl, rfl⟩)
 
 theorem Bnd.doCall (total : Bool) (fns : List Fn) (st : St) (fi : Nat) (a : List Arg) (o : Option Outs)
-    (h : Bnd st) : Bnd (doCall total fns st fi a o) := by
+    (as : List (String × AVal)) (h : Bnd st) : Bnd (doCall total fns st fi a o as) := by
   unfold OV.C18.doCall
   split
   · exact Bnd.fail st _ h
@@ -553,22 +553,22 @@ theorem Bnd.curMeta {st st' : St} (h : Bnd st) (hL : st'.L = st.L) (hh : st'.han
 
 /-- items covered: everything but `call_inline`. -/
 def wfItem : Item → Bool
-  | .inline _ _ _ _ => false
+  | .inline _ _ _ _ _ => false
   | _ => true
 
 theorem Bnd.step (total : Bool) (fns : List Fn) (st : St) (it : Item) (hs : wfItem it = true) (h : Bnd st) :
     Bnd (OV.C18.step total fns st it) := by
   cases it with
   | input n => exact Bnd.doInput st n h
-  | op t a o nn g => exact Bnd.doOp total st t a o nn g h
+  | op t a o nn g as => exact Bnd.doOp total st t a o nn g as h
   | push n => exact h.curMeta rfl rfl rfl rfl rfl rfl rfl rfl
   | pop =>
     simp only [OV.C18.step, popScope]
     split
     · exact Bnd.fail st _ h
     · exact h.curMeta rfl rfl rfl rfl rfl rfl rfl rfl
-  | call f a o => exact Bnd.doCall total fns st f a o h
-  | inline f a o p => simp [wfItem] at hs
+  | call f a o as => exact Bnd.doCall total fns st f a o as h
+  | inline f a o p as => simp [wfItem] at hs
   | beginSub g i => exact Bnd.doBeginSub st g i h
   | endSub r d => exact Bnd.doEndSub st r d h
   | output hd n =>
